@@ -45,9 +45,9 @@ def build(chk, salt):
     corp = Corpus(chk)
     r = common.rng(salt)
     if chk.quick:
-        triples = corp.triples(n_enum=300, n_random=120, salt=salt)
+        triples = corp.triples(n_enum=520, n_random=160, salt=salt)
         r.shuffle(triples)
-        tasks = make_tasks(triples, 12, r)
+        tasks = make_tasks(triples, 14, r)
     else:
         triples = corp.triples(n_enum=8000, n_random=4000, random_maxedits=5, salt=salt)
         r.shuffle(triples)
